@@ -14,7 +14,7 @@ import (
 func init() {
 	register(&Pack{ID: "C03", Run: runC03, Meta: core.Meta{
 		Level:       "other",
-		Explanation: "Shape of the unfolding and of the lookups, each a necessary condition of the listing the property describes. loop-canonical: the unfold loop is i = 0 .. cat.NumField()-1 step 1 and every use of a field is cat.Field(i) of that i. append-once: every loop-iteration path appends exactly one entry whose StructField is cat.Field(i); on the descending path the append precedes the recursive call, the call receives the appended slice and its result becomes the loop-carried listing. id-consecutive: ID is len of the pre-append slice. descend-cond: recursion iff Anonymous and kind(pointer-stripped field type) == Struct. true-offset: = C01 offs-writers/offs-term. puretype: PureType is the field's type, pointer-stripped exactly when its kind is Ptr. fieldkey: FieldKey is the first comma-separated part of the hseq tag when non-empty, else the field name. first-match: ForName/ForNameMaybe/ForType scan ascending and return the current element directly under the match (exact key equality / type identity-or-String+AssignableTo), no remember-and-continue, no reverse scan. names-order: New(names...) stores ForName(seq, names[i]) at index i for the same i; no names returns the full listing. positional: New1..9 / FMap1..9 (as C01) and FMap: val[i] = f(seq[i]). reflect's own field order is trusted; a struct embedding a pointer to itself makes the listing infinite (no cycle guard) - outside what the property can mean, recorded as an assumption.",
+		Explanation: "Shape of the unfolding and of the lookups, each a necessary condition of the listing the property describes. loop-canonical: the unfold loop is i = 0 .. cat.NumField()-1 step 1 and every use of a field is cat.Field(i) of that i. append-once: every loop-iteration path appends exactly one entry whose StructField is cat.Field(i); on the descending path the append precedes the recursive call, the call receives the appended slice and its result becomes the loop-carried listing. id-consecutive: ID is len of the pre-append slice. descend-cond: recursion iff Anonymous and kind(pointer-stripped field type) == Struct. true-offset: = C01 offs-writers/offs-term. puretype: PureType is the field's type, pointer-stripped exactly when its kind is Ptr. fieldkey: FieldKey is the first comma-separated part of the hseq tag when non-empty, else the field name. first-match: ForName/ForNameMaybe/ForType scan ascending and return the current element directly under the match (exact key equality / type identity-or-String+AssignableTo), no remember-and-continue, no reverse scan. names-order: New(names...) stores ForName(seq, names[i]) at index i for the same i; no names returns the full listing. positional: New1..9 / FMap1..9 (as C01) and FMap: val[i] = f(seq[i]). reflect's own field order is trusted; a struct embedding a pointer to itself makes the listing infinite (no cycle guard) - outside what the property can mean, recorded as an assumption. unfold-pure as in C01.",
 		RuleText:    "one obligation per (rule, function / path family)",
 		Assumptions: []string{"reflect.Type.Field(i) enumerates fields in declaration order with true offsets", "no struct embeds a pointer to itself"},
 		TrustedBase: []string{"go/types", "go/ssa", "path engine P", "term normaliser T"},
